@@ -129,6 +129,7 @@ pub fn c01_strategy() -> BoxedStrategy<Case> {
         burst_n: (3, 20),
         abort: 1,
         abandon_pull: 1,
+        goto: 2,
         ..W::default()
     };
     arb_case(w, 1..=2, 0..=4, 6..40, 2)
@@ -783,7 +784,7 @@ pub fn run_worker(ctx: &WorkerCtx) -> WorkerOut {
                 let f = &r.feat;
                 f.max_subs_on_topic_at_publish >= 2 && (f.redeliveries > 0 || f.overlapping_publishes || f.create_delete_overlapping_publish)
             };
-            run_sim_stage(ctx, SimStage { name: "random", strategy: c01_strategy(), cfg: sim_cfg(false), cases: ctx.share(scale(t, 8_000, 240_000)), nontrivial: &nt, classes: &std_classes, extra: None }, &mut out);
+            run_sim_stage(ctx, SimStage { name: "random", strategy: c01_strategy(), cfg: sim_cfg(false), cases: ctx.share(scale(t, 24_000, 240_000)), nontrivial: &nt, classes: &std_classes, extra: None }, &mut out);
         }
         "C02" => {
             crate::enumerate::c02_enumeration(ctx, &mut out);
@@ -802,19 +803,19 @@ pub fn run_worker(ctx: &WorkerCtx) -> WorkerOut {
         "C04" => {
             crate::pure::ackdeadline_sweep(ctx, &mut out);
             let nt = |_: &Case, r: &Report| r.feat.probes_before_deadline > 0 && r.feat.expiry_redeliveries > 0;
-            run_sim_stage(ctx, SimStage { name: "deadline", strategy: deadline_strategy(false), cfg: sim_cfg(true), cases: ctx.share(scale(t, 6_000, 160_000)), nontrivial: &nt, classes: &c04_classes, extra: None }, &mut out);
+            run_sim_stage(ctx, SimStage { name: "deadline", strategy: deadline_strategy(false), cfg: sim_cfg(true), cases: ctx.share(scale(t, 18_000, 160_000)), nontrivial: &nt, classes: &c04_classes, extra: None }, &mut out);
         }
         "C05" => {
             let nt = |_: &Case, r: &Report| r.feat.modify_mixed_classes || r.feat.modify_shorten_or_repeat;
-            run_sim_stage(ctx, SimStage { name: "modify", strategy: deadline_strategy(true), cfg: sim_cfg(true), cases: ctx.share(scale(t, 6_000, 160_000)), nontrivial: &nt, classes: &c04_classes, extra: None }, &mut out);
+            run_sim_stage(ctx, SimStage { name: "modify", strategy: deadline_strategy(true), cfg: sim_cfg(true), cases: ctx.share(scale(t, 18_000, 160_000)), nontrivial: &nt, classes: &c04_classes, extra: None }, &mut out);
         }
         "C06" => {
             let nt = |_: &Case, r: &Report| r.feat.avail_event_with_waiter && (r.feat.waiters_max >= 2 || r.feat.abort_of_consumer);
-            run_sim_stage(ctx, SimStage { name: "wakeups", strategy: c06_strategy(), cfg: sim_cfg(false), cases: ctx.share(scale(t, 12_000, 400_000)), nontrivial: &nt, classes: &std_classes, extra: None }, &mut out);
+            run_sim_stage(ctx, SimStage { name: "wakeups", strategy: c06_strategy(), cfg: sim_cfg(false), cases: ctx.share(scale(t, 36_000, 400_000)), nontrivial: &nt, classes: &std_classes, extra: None }, &mut out);
         }
         "C07" => {
             let nt = |_: &Case, r: &Report| r.feat.max_in_flight > 16 && (r.feat.publishes_ok > 0 || r.feat.overlapping_control_on_name || r.feat.create_delete_overlapping_publish);
-            run_sim_stage(ctx, SimStage { name: "storms", strategy: c07_strategy(), cfg: sim_cfg(false), cases: ctx.share(scale(t, 6_000, 200_000)), nontrivial: &nt, classes: &std_classes, extra: None }, &mut out);
+            run_sim_stage(ctx, SimStage { name: "storms", strategy: c07_strategy(), cfg: sim_cfg(false), cases: ctx.share(scale(t, 24_000, 200_000)), nontrivial: &nt, classes: &std_classes, extra: None }, &mut out);
         }
         "C08" => {
             let nt = |_: &Case, r: &Report| r.feat.overlapping_publishes && r.feat.subs_with_first_deliveries >= 2;
@@ -831,24 +832,24 @@ pub fn run_worker(ctx: &WorkerCtx) -> WorkerOut {
         }
         "C10" => {
             let nt = |_: &Case, r: &Report| r.feat.overlapping_control_on_name;
-            run_sim_stage(ctx, SimStage { name: "namespaces", strategy: c10_strategy(), cfg: sim_cfg(false), cases: ctx.share(scale(t, 8_000, 240_000)), nontrivial: &nt, classes: &std_classes, extra: None }, &mut out);
-            run_sim_stage(ctx, SimStage { name: "name_races", strategy: control_race_strategy(), cfg: sim_cfg(false), cases: ctx.share(scale(t, 4_000, 120_000)), nontrivial: &nt, classes: &std_classes, extra: None }, &mut out);
+            run_sim_stage(ctx, SimStage { name: "namespaces", strategy: c10_strategy(), cfg: sim_cfg(false), cases: ctx.share(scale(t, 24_000, 240_000)), nontrivial: &nt, classes: &std_classes, extra: None }, &mut out);
+            run_sim_stage(ctx, SimStage { name: "name_races", strategy: control_race_strategy(), cfg: sim_cfg(false), cases: ctx.share(scale(t, 12_000, 120_000)), nontrivial: &nt, classes: &std_classes, extra: None }, &mut out);
         }
         "C11" => {
             let nt = |_: &Case, r: &Report| r.feat.delete_then_recreate_with_survivor;
-            run_sim_stage(ctx, SimStage { name: "deletion", strategy: c11_strategy(), cfg: sim_cfg(false), cases: ctx.share(scale(t, 8_000, 240_000)), nontrivial: &nt, classes: &std_classes, extra: None }, &mut out);
-            run_sim_stage(ctx, SimStage { name: "name_races", strategy: control_race_strategy(), cfg: sim_cfg(false), cases: ctx.share(scale(t, 4_000, 120_000)), nontrivial: &nt, classes: &std_classes, extra: None }, &mut out);
+            run_sim_stage(ctx, SimStage { name: "deletion", strategy: c11_strategy(), cfg: sim_cfg(false), cases: ctx.share(scale(t, 24_000, 240_000)), nontrivial: &nt, classes: &std_classes, extra: None }, &mut out);
+            run_sim_stage(ctx, SimStage { name: "name_races", strategy: control_race_strategy(), cfg: sim_cfg(false), cases: ctx.share(scale(t, 12_000, 120_000)), nontrivial: &nt, classes: &std_classes, extra: None }, &mut out);
         }
         "C12" => {
             let nt = |_: &Case, r: &Report| r.feat.delete_with_open_stream_or_blocked_pull;
-            run_sim_stage(ctx, SimStage { name: "release", strategy: c12_strategy(), cfg: sim_cfg(false), cases: ctx.share(scale(t, 12_000, 400_000)), nontrivial: &nt, classes: &std_classes, extra: None }, &mut out);
-            run_sim_stage(ctx, SimStage { name: "name_races", strategy: control_race_strategy(), cfg: sim_cfg(false), cases: ctx.share(scale(t, 4_000, 120_000)), nontrivial: &nt, classes: &std_classes, extra: None }, &mut out);
+            run_sim_stage(ctx, SimStage { name: "release", strategy: c12_strategy(), cfg: sim_cfg(false), cases: ctx.share(scale(t, 36_000, 400_000)), nontrivial: &nt, classes: &std_classes, extra: None }, &mut out);
+            run_sim_stage(ctx, SimStage { name: "name_races", strategy: control_race_strategy(), cfg: sim_cfg(false), cases: ctx.share(scale(t, 12_000, 120_000)), nontrivial: &nt, classes: &std_classes, extra: None }, &mut out);
         }
         "C13" => {
             crate::pure::paging_pure(ctx, &mut out);
             run_case_list(ctx, "walks_1003", c13_big_cases(t), &RunCfg { horizon: false, drain: false, qp_each_op: false }, &mut out);
             let nt = |_: &Case, r: &Report| r.feat.walks_multi_page_after_delete > 0 || r.feat.hostile_tokens > 0;
-            run_sim_stage(ctx, SimStage { name: "walks", strategy: c13_strategy(t == Tier::Thorough), cfg: RunCfg { horizon: false, drain: false, qp_each_op: false }, cases: ctx.share(scale(t, 4_000, 80_000)), nontrivial: &nt, classes: &no_classes, extra: None }, &mut out);
+            run_sim_stage(ctx, SimStage { name: "walks", strategy: c13_strategy(t == Tier::Thorough), cfg: RunCfg { horizon: false, drain: false, qp_each_op: false }, cases: ctx.share(scale(t, 12_000, 80_000)), nontrivial: &nt, classes: &no_classes, extra: None }, &mut out);
         }
         "C15" => {
             let nt = |_: &Case, r: &Report| r.feat.backlog_over_limit || r.feat.big_limit || r.feat.blocking_pull_waited;
@@ -863,7 +864,7 @@ pub fn run_worker(ctx: &WorkerCtx) -> WorkerOut {
         "C16" => crate::c16::c16_check(ctx, &mut out),
         "C17" => {
             let nt = |c: &Case, _: &Report| crate::c17::has_mixed_rejection(c);
-            run_sim_stage(ctx, SimStage { name: "malformed", strategy: crate::c17::c17_strategy(), cfg: sim_cfg(false), cases: ctx.share(scale(t, 8_000, 200_000)), nontrivial: &nt, classes: &crate::c17::c17_classes, extra: Some(&crate::c17::c17_extra) }, &mut out);
+            run_sim_stage(ctx, SimStage { name: "malformed", strategy: crate::c17::c17_strategy(), cfg: sim_cfg(false), cases: ctx.share(scale(t, 24_000, 200_000)), nontrivial: &nt, classes: &crate::c17::c17_classes, extra: Some(&crate::c17::c17_extra) }, &mut out);
         }
         "C18" => {
             crate::pure::names_check(ctx, &mut out);
@@ -925,6 +926,10 @@ pub fn replay_input(prop: &str, input: &serde_json::Value) -> Result<Vec<Violati
         other => Err(format!("unknown engine {}", other)),
     }
 }
+
+/// Properties whose oracle is the simulation model over the general operation language: the
+/// coverage-guided stage of the thorough tier applies to them.
+pub const FUZZ_PROPS: &[&str] = &["C01", "C02", "C03", "C04", "C05", "C06", "C07", "C08", "C09", "C10", "C11", "C12", "C13", "C15"];
 
 pub fn strategy_for(prop: &str) -> BoxedStrategy<Case> {
     match prop {
